@@ -139,6 +139,12 @@ def gen_problem(rng, big, large=False):
             twe = tws + rng.choice([1, 3, 8])              # often unreachable in time
         else:
             twe = max(tws, reach) + rng.choice([0, 3, 8, 15, 30, 60])
+        if rng.random() < 0.07:
+            # boundary value: a window that closes at exactly 0 (falsy, but a real deadline: every positive arrival is
+            # late); int 0 and float 0.0, sometimes for a customer standing on the depot
+            tws, twe = 0, rng.choice([0, 0.0])
+            if rng.random() < 0.4:
+                x, y = depot[0], depot[1]
         custs.append([i, x, y, rng.choice([0, 1, 2, 3, 5, 2.5]), tws, twe, rng.choice([0, 0, 1, 2.5]),
                       rng.choice([2, 2, 3]) if i in multi else 1])
     cap = rng.choice([None, None, 4, 8, 15, 30] if tight else [None, None, None, 15, 30])
